@@ -42,6 +42,8 @@ CHECKS = {
          "Each build runs the same seeded programs of <=60 operations over <=6 channels and every result (value, order, empty, disconnected, send failure, select events, accept) is compared with the reference model, hence with the other builds; a call that blocks where the model returns is caught by quiescence detection. One thread only: the schedule dimension is degenerate, the simulator contributes the virtual clock, hang detection, isolation and replay. Sampling, not proof.", "5/C19"),
  "C20": ("exploration", "deterministic simulation (async feature): seeded schedules of converting threads, senders, the routing thread and consumers (block_on and hand-rolled polling with a counting waker); EINTR/short batches; per-stream history oracle + lost-wake-up detection at quiescence",
          "1..32 streams created from 1..8 threads with 0..50 messages queued before conversion, senders dropped or held, consumers on their own threads, some streams dropped early; oracle: each stream yields exactly its messages in order, ends only after real disconnection and after all messages, and no consumer stays parked while a message or the end is pending. Sampling, not proof.", "5/C20"),
+ "C01": ("exploration", "deterministic simulation: complete enumeration of lengths +-16 around the first four packet boundaries x 6 send-buffer sizes, plus seeded recursive serde values and payload sizes under seeded SO_SNDBUF, ENOBUFS refusals, receiver modes and schedules; byte-identity oracle, truncation observed at the seam",
+         "All lengths within +-16 of each k x packet-capacity boundary (k=1..4) for six effective send-buffer sizes (one not 8-aligned) on bytes and typed channels are enumerated; seeded nested values (floats by bit pattern) and payloads up to 4 MiB (quick) / 64 MiB (thorough) are sent under varied buffer sizes, injected ENOBUFS (re-splitting) and receiver modes; oracle: re-serialised received value / payload is byte-identical, no packet exceeds the receiver's buffer. The value-shape dimension is ordinary seeded generation; the simulator contributes buffer-size configuration x split points x interleaving x blocking.", "5/C01"),
 }
 PENDING = "check not built yet (work in progress in this session; will be claimed once its simulation scenario exists)"
 
